@@ -578,6 +578,13 @@ def isin(it, a, test):
     uninterpreted membership predicate with the obvious axiom for the generic row of that space."""
     a = _arr(a)
     test = _arr(test)
+    if isinstance(test, Arr) and (isinstance(test.e, CV) or (isinstance(a, Arr) and isinstance(a.e, CV))):
+        # complex keys (pairs packed as re + im*1j): membership predicate over both components
+        te, ae = (test.e if isinstance(test.e, CV) else CV(test.e, 0)), (a.e if isinstance(a.e, CV) else CV(a.e, 0))
+        pred = z3.Function(f"isin2[{test.space.name},{_key(test.mask)},{_expr_key(SV(to_z(te.re, R)))},{_expr_key(SV(to_z(te.im, R)))}]", R, R, B)
+        m = z3.BoolVal(True) if test.mask is True else test.mask
+        it.ctx.axiom(z3.Implies(m, pred(to_z(te.re, R), to_z(te.im, R))))
+        return Arr(a.space, SV(pred(to_z(ae.re, R), to_z(ae.im, R))), a.mask)
     if isinstance(test, Arr):
         pred = z3.Function(f"isin[{test.space.name},{_key(test.mask)},{_expr_key(test.e)}]", to_z(a.e).sort(), B)
         # axiom: the generic row's own value is a member
